@@ -24,7 +24,7 @@ class Template:
     def __init__(self, name, path=None, strict=True, pid=None):
         self.name = name; self.pid = pid
         self.path = path or os.path.join(VERIF, "units", name + ".rs")
-        self.meta = {"serves": [], "source": None, "rewrite": [], "assume": [], "rlimit": None, "export": [], "lean": [], "tables": []}
+        self.meta = {"serves": [], "source": None, "rewrite": [], "assume": [], "rlimit": None, "export": [], "lean": [], "tables": [], "safety_pred": []}
         self.sections = []
         cur = None
         for ln, line in enumerate(open(self.path).read().split("\n"), 1):
@@ -39,6 +39,7 @@ class Template:
                 if d == "export": self.meta["export"] += args; continue
                 if d == "lean": self.meta["lean"] += args; continue
                 if d == "tables": self.meta["tables"] += args; continue
+                if d == "safety-pred": self.meta["safety_pred"] += args; continue
                 if d == "rewrite-text":
                     a, b2 = s[len("//@rewrite-text"):].split("==>")
                     self.meta.setdefault("rewrite_text", []).append((a.strip(), b2.strip())); continue
